@@ -21,6 +21,14 @@ C08Next == \/ \E m \in Minerals, fl \in Flows, par \in Pars :
                                             NextFP(Last(hist[m]), cfg[m], cfg[m].regime, fl, par, Fm[m]))
            \/ \E ms \in OrderedSubsets, fl \in Flows, par \in Pars : UpdateAllOk(ms, fl, par, ModelNews(fl, par))
 C08Spec == C08Init /\ [][C08Next]_vars
+\* the same interleavings with failing calls in between: a callable of the client raises during a single or a bulk
+\* update (UpdateFaulted / UpdateAllFaulted).  A failed call is no input of any mineral (Touches), so
+\* NonInterference and Twins say that every mineral still evolves as if the failed calls had never been made -
+\* whatever the lengths of the other minerals' histories at that moment.
+C08FaultNext == \/ C08Next
+                \/ \E m \in Minerals, fl \in Flows, par \in Pars, fc \in FaultCodes : UpdateFaulted(m, fl, par, fc)
+                \/ \E ms \in OrderedSubsets, fl \in Flows, par \in Pars, fc \in FaultCodes : UpdateAllFaulted(ms, fl, par, fc)
+C08FaultSpec == C08Init /\ [][C08FaultNext]_vars
 
 \* per-mineral input sequence, reconstructed from the call log
 Touches(e, m) == IF e.a = "UpdateOk" THEN e.m = m
